@@ -186,6 +186,10 @@ type c10ClientCase struct {
 	// "icpt-shortens" caller has 10 D, an interceptor shortens to D;
 	// "icpt-slow" caller has D + 200 ms, an interceptor takes 200 ms.
 	Mode string `json:"mode,omitempty"`
+	// Phase: the call is made this long after a whole millisecond of the
+	// (fake) clock, so that "now" and the deadline have different sub-millisecond
+	// parts (arithmetic on truncated timestamps goes wrong only then).
+	Phase time.Duration `json:"phase,omitempty"`
 }
 
 // deadlineI is a client interceptor that changes or uses up the deadline.
@@ -239,6 +243,9 @@ func c10ClientCheck(c *ev.Collector, k c10ClientCase) {
 		callerD = 10 * k.D
 	case "icpt-slow":
 		callerD = k.D + 200*time.Millisecond
+	}
+	if k.Phase > 0 {
+		time.Sleep(k.Phase) // fake clock: exact
 	}
 	start := time.Now()
 	var res CallResult
@@ -666,6 +673,22 @@ func TestC10(t *testing.T) {
 				Bubble(t, func() { c10ClientCheck(c, k) })
 				if idx%1777 == 0 {
 					c.Sample(map[string]any{"side": "client", "proto": p.String(), "kind": kind.String(), "remaining_ns": int64(d)})
+				}
+			}
+		}
+	}
+	// the call is made at a moment that is not a whole millisecond, with a deadline whose sub-millisecond part is smaller
+	for _, p := range AllProtos {
+		for _, kind := range []Kind{KUnary, KServer, KBidi, KClient} {
+			for _, d := range []time.Duration{1650 * time.Microsecond, 2*time.Second + 650*time.Microsecond, 5*time.Millisecond + 50*time.Microsecond, 3 * time.Millisecond} {
+				for _, ph := range []time.Duration{400 * time.Microsecond, 999 * time.Microsecond} {
+					idx++
+					if !ev.Mine(idx) {
+						continue
+					}
+					k := c10ClientCase{Proto: p, Kind: kind, D: d, Phase: ph}
+					c.Case(fmt.Sprintf("client/%s/%s/%d/phase%d", p, kind, int64(d), int64(ph)), true)
+					Bubble(t, func() { c10ClientCheck(c, k) })
 				}
 			}
 		}
